@@ -334,6 +334,15 @@ func (e *absEnv) strCall(name string, args []aval) (aval, bool) {
 			vs = append(vs, mkStr(p))
 		}
 		return newVals(vs, strT), true
+	case "strings.Fields":
+		if s, ok := lit(0); ok {
+			var vs []aval
+			for _, f := range strings.Fields(s) {
+				vs = append(vs, astr(f))
+			}
+			return newVals(vs, strT), true
+		}
+		return nil, false
 	case "strings.Cut":
 		sep, ok := lit(1)
 		if !ok || sep == "" || !isStr(0) {
